@@ -4,9 +4,10 @@ from . import regcommon, worldcommon
 THEOREMS = ["ZI.Registry.C06_ro", "ZI.Registry.C06_subregistries", "ZI.Registry.run_inv", "ZI.Registry.step_inv", "ZI.Registry.setBases_inv",
             "ZI.Registry.rebuild_inv", "ZI.Registry.push_reaches", "ZI.Registry.push_keeps", "ZI.Registry.roFull_congr", "ZI.Registry.moveSubreg_spec",
             "ZI.Registry.changed_sameStr", "ZI.Registry.demo_wf", "ZI.Registry.verifyingChanged_fresh",
-            "ZI.RO.C03_ro_eq_c3", "ZI.RO.roFull_valid", "ZI.Lookup.lookupRec_eq_first"]
-NOT_PROVED = ["C06_ro for the generation-checking flavour (VerifyingAdapterRegistry): that an unchanged generation snapshot implies unchanged ancestors' bases "
-              "(needs a ghost history of bases per generation); carried: verifyingChanged_fresh — right after every change notification, incl. the one _verify issues, ro is fresh"]
+            "ZI.RO.C03_ro_eq_c3", "ZI.RO.roFull_valid", "ZI.Lookup.lookupRec_eq_first",
+            "ZI.Registry.C06_ro_verifying", "ZI.Registry.C06_ro_verifying_notified", "ZI.Registry.C05_verifying_invariant", "ZI.Registry.C05_verifying_uncached_spec",
+            "ZI.Registry.C04_most_general_lookup"]
+NOT_PROVED = ["the specification graph is static in the registry model (changes of it between a re-basing and a lookup are covered by the world correspondence)"]
 PROFILE = dict(weights=[4, 0.7, 1.5, 0.5, 4, 0.2, 0], queries=["lookup", "lookupAll", "subs", "ro"], nregs=(2, 6), layered=0.3,
                regbases=[0, 1, 1, 1, 2, 2], extra_queries=2, arity=[0, 1, 1, 2], steps=(6, 30), steps_big=(10, 60), decls=False)
 
